@@ -725,10 +725,11 @@ where
 }
 
 fn check_max_directives(doc: &ExecutableDocument, max_directives: usize) -> ServerResult<()> {
-    fn check_selection_set(
-        doc: &ExecutableDocument,
-        selection_set: &Positioned<SelectionSet>,
+    fn check_selection_set<'a>(
+        doc: &'a ExecutableDocument,
+        selection_set: &'a Positioned<SelectionSet>,
         limit_directives: usize,
+        checked_fragments: &mut HashSet<&'a Name>,
     ) -> ServerResult<()> {
         for selection in &selection_set.node.items {
             #[cfg(feature = "verif-hooks")]
@@ -744,13 +745,25 @@ fn check_max_directives(doc: &ExecutableDocument, max_directives: usize) -> Serv
                             Some(field.pos),
                         ));
                     }
-                    check_selection_set(doc, &field.node.selection_set, limit_directives)?;
+                    check_selection_set(
+                        doc,
+                        &field.node.selection_set,
+                        limit_directives,
+                        checked_fragments,
+                    )?;
                 }
                 Selection::FragmentSpread(fragment_spread) => {
-                    if let Some(fragment) =
-                        doc.fragments.get(&fragment_spread.node.fragment_name.node)
+                    // a fragment is checked once, however often it is spread
+                    let name = &fragment_spread.node.fragment_name.node;
+                    if let Some(fragment) = doc.fragments.get(name)
+                        && checked_fragments.insert(name)
                     {
-                        check_selection_set(doc, &fragment.node.selection_set, limit_directives)?;
+                        check_selection_set(
+                            doc,
+                            &fragment.node.selection_set,
+                            limit_directives,
+                            checked_fragments,
+                        )?;
                     }
                 }
                 Selection::InlineFragment(inline_fragment) => {
@@ -758,6 +771,7 @@ fn check_max_directives(doc: &ExecutableDocument, max_directives: usize) -> Serv
                         doc,
                         &inline_fragment.node.selection_set,
                         limit_directives,
+                        checked_fragments,
                     )?;
                 }
             }
@@ -766,19 +780,26 @@ fn check_max_directives(doc: &ExecutableDocument, max_directives: usize) -> Serv
         Ok(())
     }
 
+    let mut checked_fragments = HashSet::new();
     for (_, operation) in doc.operations.iter() {
-        check_selection_set(doc, &operation.node.selection_set, max_directives)?;
+        check_selection_set(
+            doc,
+            &operation.node.selection_set,
+            max_directives,
+            &mut checked_fragments,
+        )?;
     }
 
     Ok(())
 }
 
 fn check_recursive_depth(doc: &ExecutableDocument, max_depth: usize) -> ServerResult<()> {
-    fn check_selection_set(
-        doc: &ExecutableDocument,
-        selection_set: &Positioned<SelectionSet>,
+    fn check_selection_set<'a>(
+        doc: &'a ExecutableDocument,
+        selection_set: &'a Positioned<SelectionSet>,
         current_depth: usize,
         max_depth: usize,
+        checked_fragments: &mut HashMap<&'a Name, usize>,
     ) -> ServerResult<()> {
         if current_depth > max_depth {
             return Err(ServerError::new(
@@ -801,18 +822,27 @@ fn check_recursive_depth(doc: &ExecutableDocument, max_depth: usize) -> ServerRe
                             &field.node.selection_set,
                             current_depth + 1,
                             max_depth,
+                            checked_fragments,
                         )?;
                     }
                 }
                 Selection::FragmentSpread(fragment_spread) => {
-                    if let Some(fragment) =
-                        doc.fragments.get(&fragment_spread.node.fragment_name.node)
+                    // A fragment that passed the check at some depth passes it at every
+                    // smaller depth, so it is only checked again when it is spread deeper
+                    // than before.
+                    let name = &fragment_spread.node.fragment_name.node;
+                    if let Some(fragment) = doc.fragments.get(name)
+                        && checked_fragments
+                            .get(name)
+                            .is_none_or(|depth| *depth <= current_depth)
                     {
+                        checked_fragments.insert(name, current_depth + 1);
                         check_selection_set(
                             doc,
                             &fragment.node.selection_set,
                             current_depth + 1,
                             max_depth,
+                            checked_fragments,
                         )?;
                     }
                 }
@@ -822,6 +852,7 @@ fn check_recursive_depth(doc: &ExecutableDocument, max_depth: usize) -> ServerRe
                         &inline_fragment.node.selection_set,
                         current_depth + 1,
                         max_depth,
+                        checked_fragments,
                     )?;
                 }
             }
@@ -830,8 +861,15 @@ fn check_recursive_depth(doc: &ExecutableDocument, max_depth: usize) -> ServerRe
         Ok(())
     }
 
+    let mut checked_fragments = HashMap::new();
     for (_, operation) in doc.operations.iter() {
-        check_selection_set(doc, &operation.node.selection_set, 0, max_depth)?;
+        check_selection_set(
+            doc,
+            &operation.node.selection_set,
+            0,
+            max_depth,
+            &mut checked_fragments,
+        )?;
     }
 
     Ok(())
